@@ -483,7 +483,7 @@ func c14R4(c *Ctx) {
 	types_ := map[string]bool{}
 	for _, nm := range []struct{ fn, callee string; idx int }{
 		{"trzszTransfer.clientExit", tT + "sendString", 1}, {"trzszTransfer.clientError", tT + "sendString", 1},
-		{"trzszTransfer.serverError", tT + "sendString", 1}, {"TrzszRelay.sendError", "(*trzsz.TrzszRelay).sendStringToClient", 1},
+		{"trzszTransfer.serverError", tT + "sendString", 1}, {"TrzszRelay.sendError", "(*trzsz.TrzszRelay).sendStringToClient", 1}, {"TrzszRelay.sendError", "(*trzsz.TrzszRelay).sendStringToServer", 1},
 	} {
 		g := c.fn(nm.fn)
 		for _, ci := range callsIn(g, idIs(nm.callee)) {
@@ -741,6 +741,20 @@ func c14R7(c *Ctx) {
 			good := reach[tunSend.Block()] == tc.tunnel && reach[termSend.Block()] == !tc.tunnel
 			c.check(good, shortID(w.fn)+"/route@"+tc.name, c.ipos(tunSend), "the relay's own line takes the tunnel exactly when a tunnel relay exists and is connected", "the relay's own line takes the wrong route for '"+tc.name+"' (nil tunnel relay dereferenced, or the line ends up on the other connection)")
 		}
+	}
+	// the relay's own lines have the protocol's shape: '#' type ':' encoded payload, newline — in that order
+	for _, fn := range []string{"TrzszRelay.sendStringToClient", "TrzszRelay.sendStringToServer"} {
+		sf := c.fn(fn)
+		good := false
+		for _, ci := range callsIn(sf, idIs("fmt.Sprintf")) {
+			fm, isS := constString(ci.Common().Args[0])
+			els, ok := sliceElems(ci.Common().Args[1])
+			if isS && fm == "#%s:%s%s" && ok && len(els) == 3 {
+				enc, _ := callOf(strip(els[1].V))
+				good = isVar("typ")(strip(els[0].V)) && enc != nil && calleeID(&enc.Call) == "trzsz.encodeString" && isVar("str")(enc.Call.Args[0])
+			}
+		}
+		c.check(good, shortID(fn)+"/line-shape", c.pos(sf.Pos()), "the relay writes '#' + type + ':' + encodeString(payload) + newline", "the relay's own line is not '#type:encoded-payload' + newline (type and payload swapped, or payload not encoded)")
 	}
 	h := c.fn("TrzszRelay.handshake")
 	ra := callsIn(h, idIs("(*trzsz.TrzszRelay).recvAction"))
